@@ -173,6 +173,16 @@ func (m *Merger) Start() (ch <-chan *Merge, err error) {
 			return nil, fmt.Errorf("can't merge: primary key differs between versions")
 		}
 	}
+	if len(pk) == 0 && len(m.baseT.PK) == 0 {
+		// Rows of tables without a primary key are identified by their whole
+		// content and DiffTables does not compare such tables once their columns
+		// differ: every row would silently drop out of the merge result.
+		for _, t := range m.otherTs {
+			if !strSliceEqual(t.Columns, m.baseT.Columns) {
+				return nil, fmt.Errorf("can't merge: tables without a primary key must have the same columns")
+			}
+		}
+	}
 	mergeChan := make(chan *Merge)
 	diffs := make([]<-chan *objects.Diff, n)
 	progs := make([]progress.Tracker, n)
